@@ -57,6 +57,7 @@ type Spec struct {
 	SkipInit       []string            `json:"skip_init"`
 	GoMode         string              `json:"go_mode"`
 	BigNewIntZ     bool                `json:"big_newint_z"`
+	Solver         string              `json:"solver"` // z3 (4.8.12, default) | z3-new (5.1.0) | cvc5
 	ExpectedLabels map[string][]string `json:"expected_labels"` // harness -> labels that must be reached
 	Tiers          map[string]TierSpec `json:"tiers"`
 	NoReplay       []string            `json:"no_replay"` // harnesses whose counterexamples depend on modelled crypto (use concretiser)
@@ -249,6 +250,7 @@ func cmdCheck(args []string) int {
 	trace := fs.Bool("trace", false, "trace calls")
 	workers := fs.Int("workers", 0, "worker count")
 	solverLog := fs.String("solver-log", "", "write worker 0 solver transcript here")
+	solverKind := fs.String("solver", "", "z3 | z3-new | cvc5 (default: spec or z3)")
 	noReplay := fs.Bool("no-replay", false, "do not replay counterexamples natively")
 	noEvidence := fs.Bool("no-evidence", false, "do not write the evidence file")
 	var id string
@@ -292,6 +294,13 @@ func cmdCheck(args []string) int {
 	envv.SolverLog = *solverLog
 	envv.GoMode = spec.GoMode
 	envv.BigNewIntZ = spec.BigNewIntZ
+	if spec.Solver != "" {
+		envv.SolverKind = spec.Solver
+	}
+	if *solverKind != "" {
+		envv.SolverKind = *solverKind
+	}
+	solverUsed = envv.SolverKind
 	if envv.GoMode == "" {
 		envv.GoMode = "run"
 	}
@@ -753,7 +762,7 @@ func writeEvidence(spec *Spec, tier string, seed int64, results []*interp.Harnes
 		"paths_completed":               pathsOK,
 		"queries":                       queries,
 		"solver_time_s":                 round(solver.Seconds()),
-		"solver":                        "z3 4.8.12 (z3 -in, no set-logic, incremental per path)",
+		"solver":                        solverDesc(),
 		"functions_encoded":             spec.Functions,
 		"bounds":                        spec.Bounds,
 		"tier_params":                   tierSpec.Params,
@@ -779,6 +788,18 @@ func writeEvidence(spec *Spec, tier string, seed int64, results []*interp.Harnes
 	b, _ := json.MarshalIndent(ev, "", " ")
 	os.MkdirAll(filepath.Join(verifDir, "evidence"), 0o755)
 	os.WriteFile(filepath.Join(verifDir, "evidence", spec.ID+".json"), b, 0o644)
+}
+
+var solverUsed = "z3-new"
+
+func solverDesc() string {
+	switch solverUsed {
+	case "z3-new":
+		return "z3 5.1.0 (z3-new -in, no set-logic, incremental per path)"
+	case "cvc5":
+		return "cvc5 1.0 (--incremental, logic ALL)"
+	}
+	return "z3 4.8.12 (z3 -in, no set-logic, incremental per path)"
 }
 
 func round(f float64) float64 { return float64(int64(f*100)) / 100 }
